@@ -525,7 +525,7 @@ def fmtFail (kind msg : String) : String := s!"FAIL {kind} {msg}"
 /-- Which property a predicate of the oracle belongs to (both checks run this stream). -/
 def c06Preds : List String :=
   ["replay_eq_live", "wal_replay_eq_live", "snapshot_is_current_state", "wal_snapshot_truncates",
-   "wal_keys_contiguous", "wal_append_or_no_trace", "add_stores_init"]
+   "wal_keys_contiguous", "wal_append_or_no_trace", "add_stores_init", "krill_usage"]
 
 def ownedBy (prop name : String) : Bool :=
   if prop == "C06" then c06Preds.contains name || name == "unparsable-observation"
@@ -536,7 +536,19 @@ def stepD {iv} (prop : String) (d : DSt iv) (line : String) : DSt iv × String :
   let (opS, obsS) := splitObs line
   let op := words opS
   let ows := words obsS
-  let orc := (oracle d op ows).filter (ownedBy prop)
+  -- krill's usage assumption (the decidable predicates `othersForgotB` / `othersCurrentB` /
+  -- `absentB` of the theorems' `dropSafeB` / `safeRunB`), evaluated where it is assumed: the
+  -- generated histories must satisfy it
+  let usage : List String :=
+    if !d.synced then [] else
+    match op with
+    | ["drop", i, h] => named "krill_usage" (othersForgotB (d.ent h) (natOr i 0))
+    | ["wsnap", i, h] => named "krill_usage" (Wal.othersCurrentB (d.went h) (natOr i 0))
+    | ["wadd", _, h, _] =>
+      named "krill_usage" (Wal.absentB (d.went h) || (d.went h).kv.emptyDir && (d.went h).cache.isEmpty
+        && (d.went h).kv.snapshot.isNone && (d.went h).kv.wals.isEmpty)
+    | _ => []
+  let orc := (oracle d op ows ++ usage).filter (ownedBy prop)
   let dO := learn d op ows
   -- an extra tag so that the finding signature can tell a history query after a drop
   let orcTxt := " ".intercalate orc ++
